@@ -202,6 +202,8 @@ class Summaries:
             src, dst = (m2.group(2), m2.group(1)) if m2 else (m3.group(1), m3.group(2))
             if strip_ty(src) == strip_ty(dst):
                 return A[0]
+            if re.match(r"^(std::rc::)?Rc<|^(std::boxed::)?Box<", strip_ty(dst)):
+                return Ref(Box(A[0], name=ex.fresh_name("heap")))
             if strip_ty(dst) in ("ArcStr", "arcstr::ArcStr") or strip_ty(dst).endswith("String"):
                 return self.opaque_fn("str_conv", [A[0]], strip_ty(dst))
             if "Cow<" in dst:
@@ -253,6 +255,35 @@ class Summaries:
                 b = self.deref_val(st, b)
             e = self.values_eq(st, a, b, m.group(1))
             return Bool(e if m.group(3) == "eq" else z3.Not(e))
+        m = re.match(r"^<(.*) as PartialOrd(?:<.*>)?>::partial_cmp$", n)
+        if m:
+            a, b = self.deref_val(st, A[0]), self.deref_val(st, A[1])
+            while isinstance(a, Ref):
+                a = self.deref_val(st, a)
+            while isinstance(b, Ref):
+                b = self.deref_val(st, b)
+            oty = "Option<std::cmp::Ordering>"
+            if isinstance(a, Int):
+                return self.mk_enum(oty, "Some", ex.int_binop(st, "Cmp", a, b))
+            if isinstance(a, Float):
+                un = z3.Or(z3.fpIsNaN(a.t), z3.fpIsNaN(b.t))
+                cu, co = ex.feasible(st, un), ex.feasible(st, z3.Not(un))
+                if cu and co:
+                    raise_fork([(un, None, "unordered"), (z3.Not(un), None, "ordered")])
+                if cu:
+                    return self.mk_enum(oty, "None")
+                d = z3.If(z3.fpLT(a.t, b.t), z3.BitVecVal(-1, 64), z3.If(z3.fpGT(a.t, b.t), z3.BitVecVal(1, 64), z3.BitVecVal(0, 64)))
+                return self.mk_enum(oty, "Some", ex.ordering_from_term(st, d))
+            if isinstance(a, Opaque) and isinstance(b, Opaque) and a.term.sort() == b.term.sort():
+                # an uninterpreted total order on opaque values (strings): cmp == 0 iff equal, antisymmetric
+                f = z3.Function("ord_" + re.sub(r"[^A-Za-z0-9_]", "_", str(a.term.sort())), a.term.sort(), a.term.sort(), z3.BitVecSort(64))
+                d, dr = f(a.term, b.term), f(b.term, a.term)
+                one, mone, zero = z3.BitVecVal(1, 64), z3.BitVecVal(-1, 64), z3.BitVecVal(0, 64)
+                ax = z3.And(z3.Or(d == one, d == mone, d == zero), (d == zero) == (a.term == b.term), dr == -d)
+                if ax not in ex.tc.assumptions:
+                    ex.tc.assumptions.append(ax)
+                return self.mk_enum(oty, "Some", ex.ordering_from_term(st, d))
+            raise Unsupported("partial_cmp on %r" % (a,))
         m = re.match(r"^<(i128|isize|usize|u8|u32|u64|i64|i32) as Ord>::(cmp|min|max)$", n)
         if m:
             a, b = self.deref_val(st, A[0]), self.deref_val(st, A[1])
@@ -299,7 +330,7 @@ class Summaries:
             return self.pmap(st, m.group(1), A, name)
         # ---------- short-circuit predicates over slice iterators (closure must evaluate without forking)
         m = re.match(r"^<(Rev<)?(?:std::slice::)?Iter(?:Mut)?<.*>>? as Iterator>::(any|all|position|find_map|find)::<", name.strip()) if False else \
-            re.match(r"^<(Rev<)?(?:std::slice::)?Iter(?:Mut)?<.*?>>? as Iterator>::(any|all)$", n)
+            re.match(r"^<(Rev<)?(?:std::slice::)?Iter(?:Mut)?<.*?>>? as Iterator>::(any|all|find_map)$", n)
         if m:
             it = A[0]
             itv = self.deref_val(st, it) if isinstance(it, Ref) else it
@@ -313,6 +344,11 @@ class Summaries:
                 alts = self.run_closure(st, A[1], [elem])
                 if len(alts) != 1 or alts[0][0] is not st:
                     raise Unsupported("iterator predicate closure forked")
+                if want == "find_map":
+                    r_ = alts[0][1]
+                    if self.variant_of(st, r_) == "Some":
+                        return r_
+                    continue
                 v = z3.simplify(alts[0][1].t)
                 if not (z3.is_true(v) or z3.is_false(v)):
                     raise Unsupported("iterator predicate with a symbolic result")
@@ -322,6 +358,8 @@ class Summaries:
                 if want == "all" and z3.is_false(v):
                     result = False
                     break
+            if want == "find_map":
+                return self.option("?")
             return Bool(z3.BoolVal(result))
         # ---------- for x in &slice / &vec
         if re.match(r"^<&(?:mut )?\[.*\] as IntoIterator>::into_iter$", n) or re.match(r"^<&(?:mut )?(?:std::vec::)?Vec<.*> as IntoIterator>::into_iter$", n):
@@ -355,6 +393,17 @@ class Summaries:
         if m:
             rt = {"len": "usize", "is_empty": "bool", "as_bytes": "&[u8]", "chars": "Chars", "char_indices": "CharIndices"}.get(m.group(1), "&str")
             return self.opaque_fn("str_" + m.group(1), A, rt)
+        if re.match(r"^(?:std::string::)?String::(into_bytes|into_boxed_str)$", n) or n in ("<ArcStr as ToString>::to_string", "<str as ToString>::to_string", "<Substr as ToString>::to_string"):
+            a = A[0]
+            while isinstance(a, Ref):
+                a = ex.get_at(st, a.box, a.path)
+            if n.endswith("into_bytes"):
+                nm = "bytes(%s)" % canon(ex, a)
+                ax = z3.ULE(z3.BitVec(nm + ".len", 64), z3.BitVecVal(1 << 40, 64))
+                if ax not in ex.tc.assumptions:
+                    ex.tc.assumptions.append(ax)
+                return mk_sym(ex.tc, "std::vec::Vec<u8>", nm)
+            return Opaque("String", z3.Const("to_string(%s)" % canon(ex, a), opaque_sort("String")))
         m = re.match(r"^(?:std::string::)?String::(new|with_capacity|push_str|push|clear|len|as_str|is_empty)$", n)
         if m:
             meth = m.group(1)
